@@ -1405,6 +1405,10 @@ func (b *beacon) GetManyFromOrderPosition(orderPosition *OrderPosition) ([]treas
 	if !b.isOrdered {
 		return nil, errors.New("beacon is not ordered")
 	}
+	if orderPosition.From < 0 {
+		// a negative offset would index before the start of the ordered slice
+		return nil, errors.New("from must not be negative")
+	}
 
 	// Validate and set initial bounds
 	startIdx := 0
